@@ -168,6 +168,22 @@ def affMesh (lam : Rat) (t : List Rat) (m : Mesh) : Mesh := { m with region := a
 
 def affF (lam : Rat) (t : List Rat) (f : Fld) : Fld := { f with mesh := affMesh lam t f.mesh }
 
+/-! ## spec of `Field.diff` at one cell (what `C04.diff` stores, see `Lemmas/C19Diff`) -/
+
+/-- is axis `ax` a periodic direction (as `Field.diff` decides it) -/
+def periodic (f : Fld) (ax : Nat) : Bool :=
+  f.mesh.bc.toList.any fun ch => String.singleton ch == f.mesh.region.dims.getD ax ""
+
+/-- component `c` at cell `i` of the `order`-th derivative of `f` along axis `ax`: the line
+through `i`, differentiated as `Field.diff` does (C04), read at `i`'s position -/
+def Dc (f : Fld) (ax order : Nat) (r : Bool) (c : Nat) (i : List Nat) : Rat :=
+  (C04.diffLine' (periodic f ax) r order (f.mesh.cellAt ax)
+    (tab (f.mesh.nAt ax) fun j => ((f.data.line ax i j).getD c 0, f.valid.line ax i j))).getD (i.getD ax 0) 0
+
+/-- the derivative vector of a 3-component field at cell `i` -/
+def Dv (f : Fld) (ax order : Nat) (r : Bool) (i : List Nat) : V3 :=
+  ⟨Dc f ax order r 0 i, Dc f ax order r 1 i, Dc f ax order r 2 i⟩
+
 /-! ## topological charge density -/
 
 /-- continuous method at cell `i`: `1/(4π) · n·(∂₁n × ∂₂n)` from the orientation field `o`
@@ -341,11 +357,25 @@ def maxOpt (ang : Rat → Rat) : List (Option Rat) → Rat
   | none :: r => max 0 (maxOpt ang r)
   | some d :: r => max (ang d) (maxOpt ang r)
 
-/-- `max_neighbouring_cell_angle(field, units)`: every direction must be computable -/
+/-- `np.squeeze` of a shape -/
+def squeezeShape (s : List Nat) : List Nat := s.filter (· ≠ 1)
+
+def bcastOkRev : List Nat → List Nat → Bool
+  | [], _ => true
+  | _ :: _, [] => false
+  | v :: vs, t :: ts => (v == t || v == 1) && bcastOkRev vs ts
+
+/-- can an array of shape `v` be assigned to a slot of shape `t` (NumPy broadcasting:
+trailing axes aligned, each axis equal or 1) -/
+def bcastOk (v t : List Nat) : Bool := bcastOkRev v.reverse t.reverse
+
+/-- `max_neighbouring_cell_angle(field, units)`: every direction must be computable, and the
+code assigns `angle.array.squeeze()` into the slot of the full shape — which NumPy refuses
+unless all axes of length 1 of that slot are leading ones -/
 def maxNeighbourAngle (sq acos deg : Rat → Rat) (f : Fld) (units : String) : M Fld :=
   if (List.range f.mesh.ndim).any (fun a =>
       match neighbourAngle sq acos deg f (f.mesh.region.dims.getD a "") units with
-      | .ok _ => false
+      | .ok _ => !bcastOk (squeezeShape (setAt f.mesh.n a (f.mesh.nAt a - 1))) (setAt f.mesh.n a (f.mesh.nAt a - 1))
       | .error _ => true) then .error .value
   else
     .ok { mesh := f.mesh, nvdim := 1,
@@ -372,9 +402,15 @@ def bpRed (m : Mesh) (g : List Nat → Rat) (ax k : Nat) : Rat :=
   (sumTo (m.nAt (otherAxes ax).1) fun p => (sumTo (m.nAt (otherAxes ax).2) fun q => g (idx3 ax k p q))
       * m.cellAt (otherAxes ax).2) * m.cellAt (otherAxes ax).1
 
-/-- cumulative integral along `ax`: half of cell `k` plus everything before it, times the cell -/
-def bpInt (m : Mesh) (g : List Nat → Rat) (ax k : Nat) : Rat :=
-  (bpRed m g ax k / 2 + sumTo k fun k' => bpRed m g ax k') * m.cellAt ax
+/-- cumulative integral: half of cell `k` plus everything before it, times the cell size `h`
+(`reds` = the list of `F_red`) -/
+def bpIntL (reds : List Rat) (h : Rat) (k : Nat) : Rat :=
+  (reds.getD k 0 / 2 + sumTo k fun k' => reds.getD k' 0) * h
+
+def bpFromReds (reds : List Rat) (h : Rat) : List Rat := tab reds.length (bpIntL reds h)
+
+/-- evaluate every entry of a field once (driver efficiency; the identity on the cells of the mesh) -/
+def forceF (f : Fld) : Fld := { f with data := f.data.force [], valid := f.valid.force false }
 
 structure BpResult where
   fint : List Rat
@@ -407,6 +443,15 @@ def bpOf (fint : List Rat) (pi : Rat) : BpResult :=
     tt := isum ((diffs (fint.map fun x => Mesh.roundHalfEven (x / (4 * pi)))).filter (0 < ·)),
     pattern := rle (fint.map fun x => Mesh.roundHalfEven (x / (4 * pi))) }
 
+/-- from the (materialised) emergent field `e` of the orientation field: divergence, the two
+plane integrals, the cumulative integral along `ax`, rounding and counting -/
+def divCount (pi : Rat) (m : Mesh) (ax : Nat) (e : Fld) : M BpResult :=
+  match C04.diff e 0 1 true, C04.diff e 1 1 true, C04.diff e 2 1 true with
+  | .ok d0, .ok d1, .ok d2 =>
+    if m.nAt ax < 2 then .error .index
+    else .ok (bpOf (bpFromReds (tab (m.nAt ax) fun k => bpRed m (divAt d0 d1 d2) ax k) (m.cellAt ax)) pi)
+  | _, _, _ => .error .value
+
 /-- `count_bps(field, direction)` -/
 def countBps (sq : Rat → Rat) (pi : Rat) (f : Fld) (dir : String) : M BpResult :=
   if f.mesh.ndim ≠ 3 then .error .value
@@ -415,14 +460,9 @@ def countBps (sq : Rat → Rat) (pi : Rat) (f : Fld) (dir : String) : M BpResult
     match indexOf? f.mesh.region.dims dir with
     | none => .error .value
     | some ax =>
-      match emergent (orientation sq f) with
+      match emergent (forceF (orientation sq f)) with
       | .error e => .error e
-      | .ok e =>
-        match C04.diff e 0 1 true, C04.diff e 1 1 true, C04.diff e 2 1 true with
-        | .ok d0, .ok d1, .ok d2 =>
-          if f.mesh.nAt ax < 2 then .error .index
-          else .ok (bpOf (tab (f.mesh.nAt ax) fun k => bpInt f.mesh (divAt d0 d1 d2) ax k) pi)
-        | _, _, _ => .error .value
+      | .ok e => divCount pi f.mesh ax (forceF e)
 
 /-! ## demagnetisation tensor: symbolic Newell functions -/
 
